@@ -5,6 +5,7 @@ import deleg
 
 TITLE = 'encode_filename output is one plain path component for every role name, is injective, and is what every site uses to build file names'
 B8 = lambda v: z3.BitVecVal(v, 8)
+RX = re.compile
 ALNUM = set(range(0x30, 0x3a)) | set(range(0x41, 0x5b)) | set(range(0x61, 0x7b))
 
 def ev_remove(I, st, args):
@@ -134,6 +135,7 @@ def check(R, tier):
         sites(R, I)
     finally:
         I.models[:] = saved
+    file_transport(R, I)
     native_validation(R, tier)
     finalize(R)
 
@@ -194,6 +196,80 @@ def sites(R, I):
                      group='site/client-datastore')
         R.obligation('load_delegations: encode_filename is applied to the role name for the request', p.pc, z3.BoolVal(any(e[0] == 'encode_filename' and e[1] == 'a' for e in p.events)), group='site/client-url')
 
+def file_transport(R, I):
+    """FilesystemTransport::fetch (and SafeUrlPath::safe_url_filepath, FilesystemTransport::open) from MIR: the only file-system access is one open of the
+    path component of the URL taken verbatim — never a percent-decoded spelling of it, which could turn `..%2F` back into a traversal or make the
+    file of role `a/b` answer for role `a%2Fb` — and a URL of another scheme touches nothing."""
+    import stdm
+    from deleg import m_box_pin
+    fn = None
+    for n, fs in I.funcs.items():
+        if 'transport.rs' in n and n.endswith('>::fetch') and fs[0].args.startswith('_1: &FilesystemTransport'): fn = fs[0]
+    if fn is None: raise Stuck('FilesystemTransport::fetch not found in the MIR')
+    is_file = z3.Bool('scheme_is_file')
+    st = State(); st.env['fs'] = {}
+    def m_scheme(I_, s, fr, c, a, d, de, rb): return Obj('str', s=None, tag='scheme')
+    def m_str_ne(I_, s, fr, c, a, d, de, rb):
+        x = dr2(I_, s, a[0]); y = dr2(I_, s, a[1])
+        tags = [v.d.get('tag') for v in (x, y) if isinstance(v, Obj)]; lits = [v.d.get('s') for v in (x, y) if isinstance(v, Obj)]
+        if 'scheme' in tags and 'file' in lits: return z3.Not(is_file) if c.endswith('::ne') else is_file
+        raise Stuck(f'string comparison {x!r} / {y!r}')
+    def dr2(I_, s, v):
+        v = mat(I_, s, v)
+        while isinstance(v, Ref): v = mat(I_, s, I_.deref_load(s, v))
+        return v
+    def m_url_path(I_, s, fr, c, a, d, de, rb): return Obj('str', s=None, tag='url.path() verbatim')
+    def m_pathbuf_from(I_, s, fr, c, a, d, de, rb): return Obj('path', key=dr2(I_, s, a[0]).d.get('tag') or dr2(I_, s, a[0]).d.get('s'))
+    def m_to_file_path(I_, s, fr, c, a, d, de, rb):
+        okf = z3.Bool(fresh_name('to_file_path_ok'))
+        return Forks([(okf, mk_ok(Obj('path', key='url.to_file_path() percent-DECODED')), None), (z3.Not(okf), mk_err(unit()), None)])
+    def key_of(I_, s, v):
+        v = dr2(I_, s, v); return v.d.get('key') if isinstance(v, Obj) else repr(v)
+    def m_open(I_, s, fr, c, a, d, de, rb): return leaf_future('c16_fs', what='open', key=key_of(I_, s, a[0]))
+    def m_probe(I_, s, fr, c, a, d, de, rb): return leaf_future('c16_fs', what=c.split('::<')[0].split('::')[-1], key=key_of(I_, s, a[0]))
+    def op_fs(I_, s, fut):
+        okf = z3.Bool(fresh_name(fut.d['what'] + '_ok')); ev = lambda s2: s2.events.append(('fs', fut.d['what'], fut.d['key']))
+        if fut.d['what'] == 'open':
+            return Forks([(okf, mk_ready(mk_ok(Obj('file', key=fut.d['key']))), ev), (z3.Not(okf), mk_ready(mk_err(Obj('ioerror', ek=None))), ev)])
+        yes = z3.Bool(fresh_name('exists'))
+        return Forks([(z3.And(okf, yes), mk_ready(mk_ok(z3.BoolVal(True))), ev), (z3.And(okf, z3.Not(yes)), mk_ready(mk_ok(z3.BoolVal(False))), ev), (z3.Not(okf), mk_ready(mk_err(Obj('ioerror', ek=None))), ev)])
+    LEAF_OPS['c16_fs'] = op_fs
+    def m_wrap(I_, s, fr, c, a, d, de, rb): return Obj('stream', of=mat(I_, s, a[0]))
+    def m_map_err(I_, s, fr, c, a, d, de, rb):
+        v = mat(I_, s, a[0]); dd = discr_of(I_, s, v)
+        return mk_result(ok=get_field(I_, s, v, 'Ok', 0), err=Obj('terror', tkind=None), discr=dd)
+    def m_terr_new(I_, s, fr, c, a, d, de, rb): return Obj('terror', tkind='UnsupportedUrlScheme')
+    def m_unwrap_or(I_, s, fr, c, a, d, de, rb):
+        v = mat(I_, s, a[0]); dd = discr_of(I_, s, v); dflt = mat(I_, s, a[1]); okv = get_field(I_, s, v, 'Ok', 0)
+        if isinstance(dd, int): return okv if dd == 0 else dflt
+        return Forks([(dd == 0, okv, None), (dd != 0, dflt, None)])
+    ms = [(RX(r'^Url::scheme$'), m_scheme), (RX(r'^<&str as PartialEq>::(ne|eq)$'), m_str_ne), (RX(r'^Url::path$'), m_url_path), (RX(r'^<std::path::PathBuf as From<&str>>::from$'), m_pathbuf_from),
+          (RX(r'^Url::to_file_path$'), m_to_file_path), (RX(r'^tokio::fs::File::open::<'), m_open), (RX(r'^(tokio::fs::)?(try_exists|metadata|symlink_metadata|canonicalize|read_link)::<'), m_probe),
+          (RX(r'^tokio::io::BufReader::<.*>::new$'), m_wrap), (RX(r'^ReaderStream::<.*>::new$'), m_wrap), (RX(r'^std::result::Result::<ReaderStream<.*>, std::io::Error>::map_err::<'), m_map_err),
+          (RX(r'as futures::TryStreamExt>::map_err::<'), m_wrap), (RX(r'as StreamExt>::boxed::<'), m_wrap), (RX(r'^TransportError::new::<'), m_terr_new), (RX(r'^<\{closure@.*transport\.rs.*\} as Clone>::clone$'), stdm.m_clone_deep),
+          (RX(r'^std::result::Result::<bool, std::io::Error>::unwrap_or$'), m_unwrap_or), (RX(r'^Box::<\{async block@.*\}>::pin$'), m_box_pin)]
+    saved = list(I.models); I.models[:0] = ms
+    try:
+        st.frames.append(ModelFrame(h_async_driver, {'phase': 0, 'ctor': fn, 'args': [Ref(st.alloc(Obj('fs_transport'))), Obj('url', key='U')], 'generics': None}))
+        done = []; I.run(st, done.append)
+    finally:
+        I.models[:] = saved
+    R.check_interp_clean(I, 'FilesystemTransport::fetch')
+    oks = []
+    for s in done:
+        R.paths += 1
+        try: tag, _ = classify(s.result)
+        except (KeyError, AttributeError, TypeError): tag = 'unreadable'
+        fs = [e for e in s.events if e[0] == 'fs']
+        R.obligation('FilesystemTransport::fetch: the file system is accessed at most once, by opening the path component of the URL taken verbatim (no percent-decoded spelling is opened or probed)', s.pc,
+                     z3.BoolVal(len(fs) <= 1 and all(e[1] == 'open' and e[2] == 'url.path() verbatim' for e in fs)), group='file-transport/verbatim-path')
+        R.obligation('FilesystemTransport::fetch: a URL whose scheme is not file touches nothing and is refused', s.pc, z3.Implies(z3.Not(is_file), z3.BoolVal(not fs and tag != 'Ok')), group='file-transport/scheme')
+        if tag == 'Ok':
+            oks.append(s)
+            R.obligation('FilesystemTransport::fetch: Ok => the file was opened', s.pc, z3.BoolVal(len(fs) == 1), group='file-transport/verbatim-path')
+    R.reach_any('FilesystemTransport::fetch: a successful fetch is reachable', [s.pc for s in oks])
+    R.samples.append({'function': 'FilesystemTransport::fetch', 'paths': len(done)})
+
 def native_validation(R, tier):
     hazard = ['/', '\\', '.', '%', '?', '#', ':', ' ', '\x01', '\x7f', 'é', 'a', 'Z', '0']
     names = [''] + [chr(c) for c in range(1, 0x80)] + ['é', '€', '😀', '..', '.', 'a.json', '%2e%2e', '%2F', 'a/b', '../x', 'timestamp', 'targets', 'a b', 'A~_-.z']
@@ -216,7 +292,9 @@ def native_validation(R, tier):
     # end to end: cache() and load() of a repository whose delegated roles have hazardous names, both consistent settings
     e2e = R.replay('cache_roles', {'roles': ['plain', '../x', 'a/b', '/../../y', 'a.json#', 'q?x', 'a%2Fb', 'sp ace', 'ü', '.', '..', 'c:d', 'b\\c']}, timeout=300)
     R.differential['scenarios'] += e2e['cases']; R.differential['agree'] += e2e['cases'] - len(e2e['deviations'])
-    R.native_dev = dev[:3] + [d['what'] for d in e2e['deviations'][:3]]
+    ft = R.replay('file_transport', {'names': ['a/b', '../x', '../../y', 'a%2Fb', 'sp ace', 'ü', 'q?x', 'a#b', 'c:d', 'b\\c', '%2e%2e/z', 'x/../../w']}, timeout=120)
+    R.differential['scenarios'] += ft['cases']; R.differential['agree'] += ft['cases'] - len(ft['deviations'])
+    R.native_dev = dev[:3] + [d['what'] for d in e2e['deviations'][:3]] + [d['what'] for d in ft['deviations'][:3]]
 
 def finalize(R):
     for d in getattr(R, 'native_dev', [])[:3]:
